@@ -24,6 +24,7 @@ EXPLANATION = (
     'inside a per-view callback must use a key depending on the view. C06.R6 (siblings): Sum Merge adds the two values, Diff is '
     'next - this. C06.R7 (fan-in): MetricCollector::Produce hands ForEachMeter a callback that returns true on every exit, ForEachMeter '
     'calls it for every meter (the loop is left only when the callback says stop), Meter::Collect collects every registered storage.')
+EXPLANATION += " C06.R3 also requires that the map stored as the reader's reported state is, on every path, the one the reader's unreported list was merged into (never re-assigned); C06.R4 that every report on the stash path is preceded by storing the current collection time for the reader."
 NOT_DECIDED = 'exact conservation of sums over arbitrary histories and races (arithmetic), cumulative totals over time.'
 
 
